@@ -11,7 +11,9 @@ import (
 var blankRun = regexp.MustCompile(`[ \t\r\n]+`)
 
 // Note collapses blank runs and line breaks inside a free-text note and trims it.
-func Note(s string) string { return strings.TrimSpace(blankRun.ReplaceAllString(s, " ")) }
+// (Only space, TAB, CR and LF are blanks of the language; a no-break space, an ideographic space, a form feed
+// at either end are characters of the note.)
+func Note(s string) string { return strings.Trim(blankRun.ReplaceAllString(s, " "), " ") }
 
 // AST re-renders an AST JSON with every "Comment" value normalised by Note.
 func AST(astJSON string) string {
